@@ -32,7 +32,7 @@ def shards(tier, seed):
 
 
 def floors(tier):
-    f = {"solves": 70, "solves:default_construction": 10, "entries:checked": 120, "entries:graph_differs_from_target": 30, "generates:branches": 200,
+    f = {"solves": 70, "solves:default_construction": 3, "entries:checked": 120, "entries:graph_differs_from_target": 30, "generates:branches": 200,
          "generates:compiles": 300, "entries:with_conversion_gates": 20}
     for mth in METHODS:
         f["method:" + str(mth)] = 3
@@ -63,7 +63,7 @@ def replay(case, ctx):
 def gen(rng, nmax):
     from .c16 import repeater_graph
     method = METHODS[int(rng.integers(len(METHODS)))]
-    default = rng.random() < 0.15
+    default = rng.random() < 0.2
     if method == "linear":
         n = int(rng.integers(3, nmax + 1))
         A = graphs.named_graphs(n)["path"]
